@@ -40,8 +40,8 @@ def run_part(ctx):
         ctx.cov.setdefault("race_reports", 0)
         ctx.cov["race_reports"] += len(reps)
         if rc not in (0, 66) or (rc == 66 and not reps) or not os.path.exists(tf):
-            if reps:
-                continue   # the process died of the race (corrupted list): already reported
+            if ta_common.report_crash(ctx, "CipherList", "conc -race", cmd, rc, err) or reps:
+                continue   # the process died in the code under test (e.g. of the corrupted list): reported
             raise vlib.Inconclusive("tcpauth conc -race failed rc=%d: %s" % (rc, err[-1500:]))
         res = ta_common.validate_cl(ctx, tf, "C19 " + desc, signature_extra={"concurrent": True})
         ctx.cov["evaluations"] += sh["rounds"]
